@@ -353,11 +353,28 @@ def edit_constant(parameterized):
         if pobj.constant:
             pobj.constant = False
             updated.append(pobj)
+    _edit_constant_blocks.append(updated)
     try:
         yield
     finally:
+        _edit_constant_blocks[:] = [u for u in _edit_constant_blocks if u is not updated]
         for pobj in updated:
             pobj.constant = True
+
+
+# The Parameter objects unlocked by each active edit_constant block
+_edit_constant_blocks = []
+
+
+def _copied_in_edit_constant(original, copied):
+    """
+    Record that a Parameter was copied (for an instance or a subclass)
+    from one that an edit_constant block has temporarily unlocked, so that
+    the copy is made constant again when that block exits.
+    """
+    for updated in _edit_constant_blocks:
+        if any(original is pobj for pobj in updated):
+            updated.append(copied)
 
 
 @contextmanager
@@ -509,6 +526,7 @@ def _instantiate_param_obj(paramobj, owner=None):
     # Shallow-copy Parameter object without the watchers
     p = copy.copy(paramobj)
     p.owner = owner
+    _copied_in_edit_constant(paramobj, p)
 
     # Reset watchers since class parameter watcher should not execute
     # on instance parameters
@@ -4524,8 +4542,10 @@ class ParameterizedMetaclass(type):
 
         if parameter and not isinstance(value,Parameter):
             if owning_class != mcs:
-                parameter = copy.copy(parameter)
+                inherited = parameter
+                parameter = copy.copy(inherited)
                 parameter.owner = mcs
+                _copied_in_edit_constant(inherited, parameter)
                 type.__setattr__(mcs,attribute_name,parameter)
                 # This class (and its subclasses) now has its own Parameter
                 _clear_params_cache(mcs)
